@@ -1,5 +1,6 @@
 import SlipVerif.Model.Reader
 import SlipVerif.Model.ReaderGen
+import SlipVerif.Model.ReaderHist
 import SlipVerif.Driver.Util
 --! namespace: read
 /- line protocol for C02
@@ -7,6 +8,7 @@ import SlipVerif.Driver.Util
      read one    <rbase> <fmt> <hextext>                 first form and its end position (L1, one-form mode)
      read blocks <rbase> <fmt> <one:0|1> <hex,hex,…> <hexlast>   the block reader (L2); "-" = empty block list
      read mode   <rbase> <fmt> <hextext>                 lexer mode after the text (for signatures)
+     read hist   <rbase> <fmt> <hextext> <ops>           a history on one stream: ops is a string over R C U P T L B
      read tablesok                                        the table obligation evaluated by the driver
    fmt: s | d | l          replies:  ok <pos> <n> <obj>*  |  err <class> <n> <obj>*  (objects finished before the error) -/
 namespace SlipVerif.Driver.Reader
@@ -66,6 +68,21 @@ def modeName : Mode → String
   | .tok .token => "token" | .tok .chr => "char" | .tok .int => "int" | .tok .bitVec => "bitVector"
   | .str .string => "string" | .str .symbol => "symbol" | .esc => "esc" | .rune => "rune" | .chrStart => "charStart"
 
+def parseOp : Char → Option HOp
+  | 'R' => some .read | 'C' => some .readChar | 'U' => some .unreadChar | 'P' => some .peek
+  | 'T' => some .peekSkip | 'L' => some .readLine | 'B' => some .readByte | _ => none
+
+def showOut : HOut → String
+  | .form o => "read:" ++ render o
+  | .chr cp => s!"char:{cp}"
+  | .peeked cp => s!"peek:{cp}"
+  | .unread => "unread"
+  | .line bs m => s!"line:{hexBytes bs}:{if m then "t" else "nil"}"
+  | .byte b => s!"byte:{b}"
+  | .eof => "eof"
+  | .failed e => "failed:" ++ errTag e
+  | .illegal => "illegal"
+
 def parseFmt : String → Option FloatTy
   | "s" => some .single | "d" => some .double | "l" => some .long | _ => none
 
@@ -102,6 +119,12 @@ def handle (entry : String) (args : List String) : String :=
       | some _ => "ok halted"
       | none => "ok " ++ modeName s.mode
     | _, _ => "bad-request mode"
+  | "hist", [rb, fmt, hex, ops] =>
+    match parseCfg rb fmt false, unhexBytes? hex, ops.toList.mapM parseOp with
+    | some cfg, some bs, some os =>
+      let (st, outs) := runHist genTables cfg bs {} os
+      s!"ok {st.cursor} {outs.length}" ++ String.join (outs.map (fun o => " " ++ showOut o))
+    | _, _, _ => "bad-request hist"
   | "tablesok", [] => if tablesOK genTables then "ok t" else "ok nil"
   | _, _ => "bad-request entry"
 
